@@ -21,12 +21,20 @@
    mins <dir> <i> <type|ccs> [hexbody]      insert a handshake message (4-byte header generated) or a CCS
    mhex <dir> <i> | medit <dir> <i> <offset> <hexbyte>
    msave <dir> <i> <slot> | mload <dir> <i> <slot>     slots survive `new`
+   mtamper <c|s> <type> <occ> omit|after|instead [slot]
+                      CONSISTENT deviation by the sending side: its <occ>-th outgoing handshake message of <type> (counted
+                      from `new`) is left out of / followed by the slot message in / replaced by the slot message in the
+                      sender's own transcript hash AND on the wire, so everything the sender computes afterwards
+                      (CertificateVerify, Finished, traffic secrets) is right for the deviating sequence: a self-consistent
+                      misbehaving peer.  Must be given before the sender writes that flight; several may be pending.
+   ocsp=1 (new)       client asks for OCSP stapling, server has the EC-256 test OCSP response loaded (use key=ec)
    st                 snapshots of both sides
    gate13 <role> <hs>                      256-bit map of verif_tls13CheckHsState over all message types
    gate12 <role> <hs>                      reaction of parseSSLHandshake's gate to each of the 256 types, for each of the 64 flag subsets
 */
 #include "sess.h"
 #include <setjmp.h>
+#include "testkeys/OCSP/responses/OCSP_256_EC_GOOD.h"
 
 /* ---------------------------------------------------------------- plaintext capture at seal time */
 #define PTLOG 512
@@ -52,9 +60,13 @@ void __wrap_psAesEncryptGCM(psAesGcm_t *ctx, const unsigned char *pt, unsigned c
 static ssl_t *g_cur_ssl; static const unsigned char *g_cur_msg; static size_t g_cur_len; static int g_hashed;
 static jmp_buf g_probe_jmp;
 static int g_gate_calls, g_gate_hs, g_probe_t = -1;   /* gate sweep: the probe message itself was hashed (= it passed the gate) */
+typedef int32_t (*hashfn_t)(ssl_t *ssl, const unsigned char *in, psSize_t len);
+static int tamper_hash(ssl_t *ssl, const unsigned char *in, psSize_t len, hashfn_t real, int32_t *rc);
 int32_t __real_sslUpdateHSHash(ssl_t *ssl, const unsigned char *in, psSize_t len);
 int32_t __wrap_sslUpdateHSHash(ssl_t *ssl, const unsigned char *in, psSize_t len)
 {
+    int32_t trc;
+    if (g_probe_t < 0 && tamper_hash(ssl, in, len, __real_sslUpdateHSHash, &trc)) return trc;
     if (ssl == g_cur_ssl) {
         if (g_probe_t < 0) { g_gate_calls++; g_gate_hs = ssl->hsState; }
         else if (len == 4 && in[0] == (unsigned char) g_probe_t && in[1] == 0 && in[2] == 0 && in[3] == 0) {
@@ -69,6 +81,8 @@ int32_t __wrap_sslUpdateHSHash(ssl_t *ssl, const unsigned char *in, psSize_t len
 int32_t __real_tls13TranscriptHashUpdate(ssl_t *ssl, const unsigned char *in, psSize_t len);
 int32_t __wrap_tls13TranscriptHashUpdate(ssl_t *ssl, const unsigned char *in, psSize_t len)
 {
+    int32_t trc;
+    if (tamper_hash(ssl, in, len, __real_tls13TranscriptHashUpdate, &trc)) return trc;
     if (ssl == g_cur_ssl && g_cur_msg && len == g_cur_len && memcmp(in, g_cur_msg, len) == 0) g_hashed = 1;
     return __real_tls13TranscriptHashUpdate(ssl, in, len);
 }
@@ -83,10 +97,41 @@ static unsigned char g_vmaj[2] = { 3, 3 }, g_vmin[2] = { 3, 3 };
 #define NSLOT 16
 static item_t g_slot[NSLOT];
 
+/* ---------------------------------------------------------------- consistent deviations of the sender (mtamper) */
+#define T_OMIT 0
+#define T_AFTER 1
+#define T_INSTEAD 2
+typedef struct { int dir, type, occ, mode, slot; } tamper_t;
+static tamper_t g_tamper[16]; static int g_ntamper;
+static int g_hcount[2][256], g_ecount[2][256];     /* outgoing messages per type: seen by the hash / by the item extractor */
+static const tamper_t *tamper_find(int d, int type, int occ) {
+    for (int i = 0; i < g_ntamper; i++) if (g_tamper[i].dir == d && g_tamper[i].type == type && g_tamper[i].occ == occ) return &g_tamper[i];
+    return NULL;
+}
+/* called for every transcript-hash update; returns 1 if it took care of the update */
+static int tamper_hash(ssl_t *ssl, const unsigned char *in, psSize_t len, hashfn_t real, int32_t *rc) {
+    int d;
+    if (len < 4) return 0;
+    if (g_c.ssl && ssl == g_c.ssl) d = 0; else if (g_s.ssl && ssl == g_s.ssl) d = 1; else return 0;
+    /* a RECEIVED message (the one being delivered right now) is not ours */
+    if (ssl == g_cur_ssl && g_cur_msg && len == g_cur_len && memcmp(in, g_cur_msg, len) == 0) return 0;
+    /* only whole messages: header length must match */
+    if (4 + ((size_t) in[1] << 16) + ((size_t) in[2] << 8) + in[3] != (size_t) len) return 0;
+    int occ = ++g_hcount[d][in[0]];
+    const tamper_t *t = tamper_find(d, in[0], occ);
+    if (!t) return 0;
+    *rc = PS_SUCCESS;
+    if (t->mode == T_OMIT) return 1;
+    if (t->mode == T_AFTER) *rc = real(ssl, in, len);
+    if (g_slot[t->slot].b && g_slot[t->slot].kind == 22) { int32_t r2 = real(ssl, g_slot[t->slot].b, (psSize_t) g_slot[t->slot].len); if (*rc >= 0) *rc = r2; }
+    return 1;
+}
+
 static void item_free(item_t *it) { free(it->b); it->b = NULL; }
 static void item_copy(item_t *d, const item_t *s) { *d = *s; d->b = malloc(s->len + 1); memcpy(d->b, s->b, s->len); }
 static void items_reset(void) {
     for (int d = 0; d < 2; d++) { for (int i = 0; i < g_nit[d]; i++) item_free(&g_it[d][i]); g_nit[d] = 0; g_hslen[d] = 0; g_pth[d] = g_ptt[d] = 0; }
+    g_ntamper = 0; memset(g_hcount, 0, sizeof g_hcount); memset(g_ecount, 0, sizeof g_ecount);
 }
 static void item_add(int d, int kind, int t, const unsigned char *b, size_t len, int sealed) {
     if (g_nit[d] >= MAXIT) return;
@@ -109,7 +154,14 @@ static void hs_extract(int d) {
     while (g_hslen[d] - off >= 4) {
         size_t ml = 4 + ((size_t) g_hsbuf[d][off+1] << 16) + ((size_t) g_hsbuf[d][off+2] << 8) + g_hsbuf[d][off+3];
         if (g_hslen[d] - off < ml) break;
-        item_add(d, 22, g_hsbuf[d][off], g_hsbuf[d] + off, ml, g_hssealed[d]);
+        {
+            int ty = g_hsbuf[d][off], occ = ++g_ecount[d][ty];
+            const tamper_t *t = g_ntamper ? tamper_find(d, ty, occ) : NULL;
+            if (!t || t->mode == T_AFTER) item_add(d, 22, ty, g_hsbuf[d] + off, ml, g_hssealed[d]);
+            if (t && t->mode != T_OMIT && g_slot[t->slot].b) {
+                item_insert(d, g_nit[d], &g_slot[t->slot]); g_it[d][g_nit[d]-1].was_sealed = g_hssealed[d];
+            }
+        }
         off += ml;
     }
     memmove(g_hsbuf[d], g_hsbuf[d] + off, g_hslen[d] - off); g_hslen[d] -= off;
@@ -243,7 +295,7 @@ static int md(int d, int n) {
 }
 
 /* ---------------------------------------------------------------- scenario creation (sess_new + PSK / groups) */
-typedef struct { int psk, psk13, ncg, nsg, nshare; uint16_t cg[4], sg[4]; } xcfg_t;
+typedef struct { int psk, psk13, ncg, nsg, nshare, ocsp; uint16_t cg[4], sg[4]; } xcfg_t;
 static int hs_new(scfg_t *c, xcfg_t *x) {
     int32 rc;
     peer_free(&g_c); peer_free(&g_s);
@@ -272,6 +324,7 @@ static int hs_new(scfg_t *c, xcfg_t *x) {
         }
         if (x->psk && (rc = matrixSslLoadPsk(g_s.keys, pskkey, 16, pskid, 8)) < 0) return rc - 1100;
         if (x->psk13 && (rc = matrixSslLoadTls13Psk(g_s.keys, psk13key, 32, psk13id, 10, NULL)) < 0) return rc - 1200;
+        if (x->ocsp && (rc = matrixSslLoadOCSPResponse(g_s.keys, ocsp_256_ec_good, sizeof(ocsp_256_ec_good))) < 0) return rc - 1300;
         g_skeys_persist = g_s.keys;
     }
     if (matrixSslNewKeys(&g_c.keys, NULL) < 0) return -2;
@@ -294,6 +347,7 @@ static int hs_new(scfg_t *c, xcfg_t *x) {
     if (x->ncg && (rc = matrixSslSessOptsSetKeyExGroups(&so, x->cg, (psSize_t) x->ncg, (psSize_t) (x->nshare ? x->nshare : 1))) < 0) return rc - 5100;
     if (c->ems < 0) so.extendedMasterSecret = -1;
     if (c->ticket) so.ticketResumption = 1;
+    if (x->ocsp) so.OCSPstapling = 1;
     g_c.cb_mode = c->ccb;
     if (c->resume && g_saved_sid) g_c.sid = g_saved_sid;
     else { if (g_saved_sid) { matrixSslDeleteSessionId(g_saved_sid); g_saved_sid = NULL; } matrixSslNewSessionId(&g_saved_sid, NULL); g_c.sid = g_saved_sid; }
@@ -326,6 +380,7 @@ static void do_new(char **a, int n) {
         else if (!strcmp(a[i], "keepkeys")) c.keep_skeys = atoi(v);
         else if (!strcmp(a[i], "psk")) x.psk = atoi(v);
         else if (!strcmp(a[i], "psk13")) x.psk13 = atoi(v);
+        else if (!strcmp(a[i], "ocsp")) x.ocsp = atoi(v);
         else if (!strcmp(a[i], "nshare")) x.nshare = atoi(v);
         else if (!strcmp(a[i], "cgrp")) { int t[4]; x.ncg = parse_list(v, t, 4); for (int k = 0; k < x.ncg; k++) x.cg[k] = (uint16_t) t[k]; }
         else if (!strcmp(a[i], "sgrp")) { int t[4]; x.nsg = parse_list(v, t, 4); for (int k = 0; k < x.nsg; k++) x.sg[k] = (uint16_t) t[k]; }
@@ -437,6 +492,13 @@ static void run_cmd(char **a, int n) {
     }
     else if (!strcmp(a[0], "mhex") && n >= 3) { collect(); int d = dirof(a[1]), i = atoi(a[2]); if (i < g_nit[d]) { printf("mhex:"); puthex(g_it[d][i].b, g_it[d][i].len); } else printf("mhex:range"); }
     else if (!strcmp(a[0], "medit") && n >= 5) { collect(); int d = dirof(a[1]), i = atoi(a[2]); size_t off = (size_t) atoi(a[3]); if (i < g_nit[d] && off < g_it[d][i].len) { g_it[d][i].b[off] = (unsigned char) strtol(a[4], NULL, 16); printf("medit:ok"); } else printf("medit:range"); }
+    else if (!strcmp(a[0], "mtamper") && n >= 5) {
+        if (g_ntamper < 16) {
+            tamper_t *t = &g_tamper[g_ntamper++]; t->dir = a[1][0] == 's' ? 1 : 0; t->type = atoi(a[2]); t->occ = atoi(a[3]);
+            t->mode = !strcmp(a[4], "omit") ? T_OMIT : !strcmp(a[4], "after") ? T_AFTER : T_INSTEAD; t->slot = n >= 6 ? atoi(a[5]) % NSLOT : 0;
+            printf("mtamper:ok");
+        } else printf("mtamper:full");
+    }
     else if (!strcmp(a[0], "msave") && n >= 4) { collect(); int d = dirof(a[1]), i = atoi(a[2]), sl = atoi(a[3]) % NSLOT; if (i < g_nit[d]) { item_free(&g_slot[sl]); item_copy(&g_slot[sl], &g_it[d][i]); printf("msave:%c%d", kindch(&g_slot[sl]), g_slot[sl].t); } else printf("msave:range"); }
     else if (!strcmp(a[0], "mload") && n >= 4) { collect(); int d = dirof(a[1]), i = atoi(a[2]), sl = atoi(a[3]) % NSLOT; if (g_slot[sl].b) { item_insert(d, i, &g_slot[sl]); printf("mload:%c%d", kindch(&g_slot[sl]), g_slot[sl].t); } else printf("mload:empty"); }
     else if (!strcmp(a[0], "app") && n >= 3) {
